@@ -92,8 +92,9 @@ def run(tier, seed):
     if tier != 'quick': J += [j for j in jobs('quick', item='owned')]
     else:
         # owning item type: the operations that vacate, move or expose slots, on the shapes where the ring can wrap
-        ops = ('removehead', 'removetail', 'removeat', 'removeheadmulti', 'removetailmulti', 'normalize', 'clear', 'insert', 'addtail', 'addhead', 'swapcontents', 'shrink', 'assign')
-        J += [j for j in jobs('quick', item='owned') if j.entry[len('harness_q_'):] in ops and j.pdefs['IR2C_P0'] in (3, 6) and j.pdefs['IR2C_P1'] in (0, 2, 3, 5)]
+        ops = ('removehead', 'removetail', 'removeat', 'removeheadmulti', 'removetailmulti', 'normalize', 'clear', 'insert', 'addtail', 'addhead')
+        # heap-backed shapes only: with the inline array (capacity 3) of an owning type most of these jobs exceed the quick budget (measured: 120 s timeouts / 8 GB)
+        J += [j for j in jobs('quick', item='owned') if j.entry[len('harness_q_'):] in ops and j.pdefs['IR2C_P0'] == 6 and j.pdefs['IR2C_P1'] in (0, 3, 5) and j.pdefs['IR2C_P4'] in (0, 99)]
     seen = set(); dj = []
     for j in J:
         if j.entry not in seen and j.pdefs['IR2C_P0'] == 4 and j.pdefs['IR2C_P1'] in (2, 3) and 'int32' in j.name: seen.add(j.entry); dj.append(j)
